@@ -8,10 +8,10 @@ PROPS = {}
 PROPS['C02'] = dict(
     engine='A', technique='symbolic-scalar execution of the real templates (T = z3 real terms) + QF_NRA obligations, exact-rational replay',
     harnesses=[dict(name='C02_eval', src='C02_eval.cpp',
-                    defs=dict(quick=['-DMAXN=5', '-DMAXO=3'], thorough=['-DMAXN=6', '-DMAXO=5']),
+                    defs=dict(quick=['-DMAXN=5', '-DMAXO=3', '-DHISTN=3'], thorough=['-DMAXN=6', '-DMAXO=5', '-DHISTN=4']),
                     functions=['Spline::operator()', 'Spline::findInterval', 'Spline::front', 'Spline::back', 'Support::begin', 'Support::end', 'Support::front',
                                'Support::back', 'Support::size', 'Support::operator[]', 'Grid::operator[]', 'internal::evaluateInterval', 'std::lower_bound (libstdc++)'])],
-    bounds=dict(quick='grids of 2..5 symbolic points, every window (empty, point-like, all s<e<=n), orders 0..3, symbolic coefficients and abscissa',
+    bounds=dict(quick='grids of 2..5 symbolic points, every window (empty, point-like, all s<e<=n), orders 0..3, symbolic coefficients and abscissa; plus evaluation of objects with a history (earlier evaluation at an independent symbolic x1, then copy/move/lower-order assignment, += or move-out-and-reassign from every other window) on grids of 2..3 points',
                 thorough='grids of 2..6 symbolic points, every window, orders 0..5'),
     outside='orders/grids above the bound; NaN abscissa; floating-point rounding (C16)',
     assumptions=['grid points strictly increasing reals', 'exact real arithmetic (sym::Real), not IEEE'],
@@ -181,6 +181,21 @@ PROPS['C11'] = dict(
     trusted=A_TRUST + ['symt/symf64.h', 'z3 FPA decision procedure'],
     level_text='Bounded symbolic model checking of the validators: the element sequence is symbolic, so the position and kind of the defect (NaN, duplicate, +-0 pair, descent, infinity) is chosen by the solver; on each path the accept/refuse outcome must agree with the documented predicate, and every refusal must be the library exception.',
     level_note='Sequence lengths, index values and counts enumerated to the bound, element values symbolic; trusted: g++, libz3 (FPA, NRA), sym.h/symf64.h/harness.h, oracle in C11_validation.cpp.')
+
+PROPS['C14'] = dict(
+    engine='A', technique='symbolic-scalar execution of operation histories on the real classes; operands/earlier results compared with snapshots and with freshly constructed objects (history independence) under solver-enumerated paths',
+    harnesses=[dict(name='C14_value', src='C14_value.cpp',
+                    defs=dict(quick=['-DMAXN=3'], thorough=['-DMAXN=4', '-DMORE_ORDERS']),
+                    functions=['Spline copy/move construction and assignment', 'Spline::operator()', 'Spline::isZero', 'Spline::front/back', 'Spline::operator+,-,*,/,unary -', 'Spline::operator+=,-=,*=,/=',
+                               'Spline::operator=(lower order)', 'Spline::checkOverlap', 'Spline::operator==/!=', 'operator*(Operator,Spline)', 'SplineOperator', 'ScalarProduct/BilinearForm/LinearForm',
+                               'linearCombination', 'Support copy/move', 'Grid copy', 'Grid::getData'])],
+    bounds=dict(quick='orders 0 and 1; grids of 2..3 symbolic points; every window of the object x 2..4 partner windows; a history of 30 const operations (evaluation at a symbolic x1 or predicate queries, arithmetic, operator application, forms, linearCombination, copies, moves) followed by observation at an independent symbolic x2; 8 kinds of mutation of a copy / of the original; throwing in-place updates against a grid that differs in one symbolic point',
+                thorough='orders 0..2, grids of 2..4 points'),
+    outside='histories longer than the fixed sequences; pools of more than 4 objects; orders/grids above the bound',
+    assumptions=['grid points strictly increasing reals', 'exact real arithmetic'],
+    trusted=A_TRUST,
+    level_text='Bounded symbolic model checking of value semantics: after a history of const operations with symbolic arguments every operand must show its snapshot state (window, coefficients, grid points, identity of the shared grid storage) and must answer evaluation/predicates/integration exactly like an object freshly constructed from that state, at an independent symbolic abscissa - the solver chooses the pair (x1, x2) that would expose hidden mutable state. Copies, earlier results and failed in-place updates are checked the same way.',
+    level_note='Exact reals; orders, windows, grid sizes and the operation sequences are fixed/enumerated to the bound, arguments symbolic; trusted: g++, libz3, sym.h/harness.h, oracle in C14_value.cpp.')
 
 _NOT_BUILT = 'check not built yet in this round (planned, see DESIGN.md section 5)'
 NOT_APPLICABLE = {
